@@ -69,6 +69,11 @@ def gen_case(rng, max_cells=40, max_mag=8, max_events=120, zero_frac=None, rate_
         "rates": rates.tolist(), "ev_cell": ev_cell.tolist(), "ev_mag": ev_mag.tolist(),
         "frac": rng.uniform(0.15, 0.85, (n_ev, 2)).tolist(), "magoff": magoff.tolist(),
     }
+    # object histories / storage layouts that leave the mathematical input unchanged (drawn last: earlier draws keep their values)
+    hk = float(rng.uniform())
+    case["history"] = None if hk < 0.7 else ("regridded" if hk < 0.85 else "inplace-reordered")
+    lk = float(rng.uniform())
+    case["layout"] = None if lk < 0.8 else ("F" if lk < 0.9 else "T")
     return case
 
 
@@ -92,7 +97,33 @@ def build(case, name="fore"):
     cat = fixtures.catalog(lons, lats, mvals, region=reg, name="obs")
     w = numpy.zeros(rates.shape)
     numpy.add.at(w, (ec, em), 1)
+    hist = case.get("history")
+    if hist == "regridded" and reg.num_nodes > 1 and n:
+        # the same catalog object was gridded on another region (same cells, listed in reverse) before being bound to the forecast's region
+        from csep.core.regions import CartesianGrid2D
+        other = CartesianGrid2D.from_origins(reg.origins()[::-1].copy(), dh=reg.dh, magnitudes=mags)
+        cat.region = other
+        _quiet(cat.spatial_counts)
+        _quiet(cat.spatial_magnitude_counts)
+        cat.region = reg
+    elif hist == "inplace-reordered" and n >= 2:
+        # the catalog was gridded once, then its stored event array was re-ordered in place
+        _quiet(cat.spatial_counts)
+        _quiet(cat.spatial_magnitude_counts)
+        cat.catalog[:] = cat.catalog[::-1].copy()
+    lay = case.get("layout")
+    if lay == "F":
+        fore._data = numpy.asfortranarray(fore._data)
+    elif lay == "T":
+        fore._data = numpy.ascontiguousarray(fore._data.T).T
     return fore, cat, reg, w
+
+
+def _quiet(fn):
+    try:
+        return fn()
+    except Exception:  # noqa  (a raising gridding call is reported by the check that owns it)
+        return None
 
 
 # ---------------------------------------------------------------------------------------------
